@@ -274,7 +274,7 @@ func crashMain(r *vlib.Run, x *searcher) {
 		jobs = append(jobs, crashJob{hist: p, target: tOther, always: true}, crashJob{hist: p, target: tTop, always: true})
 	}
 	// failing bodies followed by repairs through partial builds
-	jobs = append(jobs, crashJob{focus: &focus{[]string{"edit:dir/x.txt", "global:G", "session:build:top(mid's body fails),cause repaired,build:top", "build:top", "build:mid"}, 4}},
+	jobs = append(jobs, crashJob{focus: &focus{[]string{"edit:dir/x.txt", "default:leaf.d", "session:build:top(mid's body fails; repaired; build:top)", "session:build:top(leaf's body fails; repaired; build:top)", "build:top"}, 4}},
 		crashJob{focus: &focus{[]string{"fail:mid", "edit:dir/x.txt", "build:mid", "build:top"}, 7}},
 		crashJob{focus: &focus{[]string{"fail:gen", "edit:src/a.txt", "build:gen", "build:mid", "build:top"}, 6}})
 	recOps := []Op{byName["build:top"], byName["build:mid"], byName["build:gen"], byName["build:leaf"], byName["build:other"], byName["dry:top"], byName["edit:src/a.txt"], byName["delete:gen/g.txt"]}
